@@ -225,16 +225,34 @@ func (s *sink) waitCount(prefix string, want int, d time.Duration, done <-chan s
 	}
 }
 
-var lineRes = []*regexp.Regexp{
-	regexp.MustCompile(`^readyok$`),
-	regexp.MustCompile(`^uciok$`),
-	regexp.MustCompile(`^id (name|author) .*$`),
-	regexp.MustCompile(`^option name \S+ type \S+ default \S+( min \S+ max \S+)?$`),
-	regexp.MustCompile(`^bestmove ([a-h][1-8][a-h][1-8][nbrq]?|0000)( ponder [a-h][1-8][a-h][1-8][nbrq]?)?$`),
-	regexp.MustCompile(`^info string [ -~]*$`), // any printable info string line (the mock's own lines have this form too)
-	regexp.MustCompile(`^info depth \d+ score (cp|mate) -{0,2}\d+ nodes \d+ time \d+ hashfull \d+ pv( [a-h][1-8][a-h][1-8][nbrq]?)*\s?$`),
-	regexp.MustCompile(`^info depth \d+ nodes \d+$`),
-	regexp.MustCompile(`^[1-8pnbrqkPNBRQK/]+ [wb] (-|[KQkq]+) (-|[a-h][36]) \d+ \d+$`),
+// Line grammar, deliberately loose so that a maintainer's new output does not alarm: a line must start with
+// a protocol keyword (or be a FEN / number line printed by the fen, eval and perft commands) and hold only
+// printable characters; bestmove and readyok lines must be exact because they are counted; a pv may only
+// hold moves; and no second message may start in the middle of a line (that is what a torn line looks like).
+var bestLine = regexp.MustCompile(`^bestmove ([a-h][1-8][a-h][1-8][nbrq]?|0000)( ponder [a-h][1-8][a-h][1-8][nbrq]?)?$`)
+var printable = regexp.MustCompile(`^[ -~]*$`)
+var embedded = regexp.MustCompile(`.(readyok|bestmove |uciok|info depth|info string|id name|option name)`)
+var pvTail = regexp.MustCompile(` pv(( [a-h][1-8][a-h][1-8][nbrq]?)*) ?$`)
+
+func lineOK(l string) bool {
+	if !printable.MatchString(l) || embedded.MatchString(l) {
+		return false
+	}
+	switch {
+	case l == "readyok" || l == "uciok":
+		return true
+	case strings.HasPrefix(l, "bestmove"):
+		return bestLine.MatchString(l)
+	case strings.HasPrefix(l, "info "):
+		if i := strings.Index(l, " pv"); i >= 0 && !strings.HasPrefix(l, "info string") {
+			return pvTail.MatchString(l)
+		}
+		return true
+	case strings.HasPrefix(l, "id ") || strings.HasPrefix(l, "option "):
+		return true
+	}
+	// fen / eval / perft output: no letters other than piece letters, side, castling and square names
+	return regexp.MustCompile(`^[0-9pnbrqkPNBRQKw a-h/.-]+( nps)?$`).MatchString(l) || strings.HasPrefix(l, "cp ") || strings.HasPrefix(l, "mate ")
 }
 
 type hangErr struct {
@@ -412,14 +430,7 @@ func runCase(c Case, rec *evid.Rec) error {
 	}
 	best, ready, curSearch := 0, 0, 0
 	for i, l := range lines {
-		ok := false
-		for _, re := range lineRes {
-			if re.MatchString(l.line) {
-				ok = true
-				break
-			}
-		}
-		if !ok {
+		if !lineOK(l.line) {
 			return fmt.Errorf("output line %d is torn or malformed: %q", i, l.line)
 		}
 		switch {
